@@ -83,11 +83,12 @@ def run(ctx):
     ctx.decided += [
         'C04.b in-place kernels of the table-defined gates == their matrix on every basis input for probe exponents/shifts; a kernel returns the tensor it '
         'wrote and leaves the target unchanged when it gives up',
+        'C04.c _decompose_ of the table-defined gates (+CSWAP) multiplies to exactly the gate matrix, incl. adjacency-dependent branches',
         'C04.a has-X literally True => X never gives up; literally False => no X; X gives up under parameterization => has-X negates parameterization',
         'C04.d wrappers read the wrapped object in every protocol method they define, and a method delegating to the same method of the wrapped object '
         'forwards every one of its parameters',
     ]
-    ctx.not_decided += ['decomposition / Kraus / mixture / superoperator agreement with the matrix', 'act_on for each simulator state', 'controlled-gate kernels']
+    ctx.not_decided += ['decompositions of parameter-dependent gates and of ControlledGate', 'Kraus / mixture / superoperator agreement with the matrix', 'act_on for each simulator state', 'controlled-gate kernels']
 
     # ------------------------------------------------------------------ C04.b
     ctx.rule('C04.b', 'kernel == matrix: interpreting _apply_unitary_ over a one-hot tensor for every basis state gives column U[:,k] of '
@@ -140,6 +141,61 @@ def run(ctx):
             bad = bad or 'kernel declines every probe (exponent 1 included)'
         ctx.ob('C04.b', key, bad is None, bad or '', ci.mod.rel, fn.lineno)
     ctx.notes.append(f'C04.b interpreted {nprobe} kernel runs')
+
+    # ------------------------------------------------------------------ C04.c
+    from . import decomp
+    ctx.rule('C04.c', 'decomposition == matrix: interpreting _decompose_ over symbolic gate values (library gates resolved through the repository to '
+             'their extracted tables) and multiplying the yielded operations gives exactly the gate\'s own matrix, for probe exponents/shifts and - for '
+             'three-qubit gates - every placement of the qubits on a line (adjacency-dependent branches) as well as abstract qubits', floor=10, style='FDX')
+    cache = {}
+    cswap_ref = c03._controlled(c03.SWAPM)
+    diag_angles = [0.1, 0.25, 0.7, -0.4, 1.3, 2.0, -1.1, 0.55]
+    targets = [(cq, dim, None, None) for (cq, dim) in c03.REFERENCE if dim in (None, 2)] + \
+        [('cirq.ops.three_qubit_gates.CSwapGate', None, cswap_ref, None),
+         ('cirq.ops.three_qubit_gates.ThreeQubitDiagonalGate', None, np.diag(np.exp(1j * np.array(diag_angles))), {'_diag_angles_radians': list(diag_angles)})]
+    ndec = 0
+    for cq, dim, fixed_ref, extra in targets:
+        ci = repo.cls(cq)
+        if '_decompose_' not in ci.methods:
+            continue
+        if fixed_ref is None:
+            comps, _ = c03._components(repo, ci, dim)
+            n = int(round(np.log2(comps[0][1].shape[0])))
+            probes = [(1, 0), (0.5, 0), (0.3, 0.2), (-1, 0), (2, 0), (0.25, -0.5)]
+        else:
+            n = 3
+            probes = [(1, 0)]
+        placements = [None] + ([list(p) for p in itertools.permutations(range(n))] if n == 3 else [])
+        bad = None
+        unsupported = None
+        done = 0
+        for e, s_ in probes:
+            want = fixed_ref if fixed_ref is not None else sum(np.exp(1j * np.pi * e * (t + s_)) * m for t, m in comps)
+            for pl in placements:
+                try:
+                    res = decomp.decomposition_unitary(repo, ci, '_decompose_', e, s_, n, cache, positions=pl, extra_self=extra)
+                except (fdx.Unsupported, fdx.Raised) as ex:
+                    unsupported = str(ex)
+                    break
+                ndec += 1
+                if res is None:
+                    continue
+                done += 1
+                u, k = res
+                if not np.allclose(u, want, atol=1e-8):
+                    ov = abs(np.trace(u.conj().T @ want)) / 2 ** n
+                    bad = bad or (f'at exponent={e}, global_shift={s_}, qubits {"abstract" if pl is None else "on line positions " + str(pl)}: the {k} yielded operations '
+                                  f'multiply to a different matrix (overlap with the gate {ov:.3f})')
+            if unsupported:
+                break
+        key = f'{cq}._decompose_'
+        if unsupported:
+            ctx.unres('C04.c', key, f'decomposition not interpretable: {unsupported}', ci.mod.rel, ci.methods['_decompose_'].lineno)
+            continue
+        if done == 0:
+            continue
+        ctx.ob('C04.c', key, bad is None, bad or '', ci.mod.rel, ci.methods['_decompose_'].lineno)
+    ctx.notes.append(f'C04.c interpreted {ndec} decompositions')
 
     # return discipline for all other kernels
     ctx.rule('C04.b2', 'kernel return discipline: every _apply_unitary_/_apply_channel_ returns args.target_tensor, args.available_buffer / '
